@@ -15,6 +15,18 @@ def check(tier, seed, only=None):
         ("flush", "proto", "reference_loose", "per_param"),
     ], only)
     p_wrap_common.run_wrappers(rep, fips=False, legacy=False, only=only)
+    # (1b) rolling hash (added after seed C18_c): init / reset / scan loop (thorough: run) with their frames; the harness leaves every
+    #      static object of the translation unit arbitrary, so a result that depends on one fails its post-condition
+    from . import overlay, rolling
+    try:
+        rj = [j for j in rolling.jobs(os.path.join(runner.scratch(), "rolling")) if "lemma" not in j.name and "table" not in j.name]
+        if tier == "quick":
+            rj = [j for j in rj if j.name != "rolling/run"]
+        if only:
+            rj = [j for j in rj if any(s in j.name for s in only.split(","))]
+        rep.add_job_results(runner.run_jobs(rj))
+    except overlay.OverlayError as e:
+        rep.add_undecided("extraction broke (rolling): %s" % e)
     # (2) the one-time bindings: exactly one store, value a function of CPUID/XCR0 only
     try:
         jobs = [j for j in dispatch.jobs(os.path.join(runner.scratch(), "dispatch")) if "/stable/" in j.name]
